@@ -30,7 +30,8 @@ Definition no_defer_cfg : cfg := mkCfg elect_renewals elect_retry_ns (c_cfr go_c
 
 (* hypotheses on a history *)
 (* durations >= 1 s, and urgency: the clock does not move while a thread is inside a storage call
-   or between a call's effect and the code's reaction (no AdvanceInCall) *)
+   or between a call's effect and the code's reaction, and never overtakes a due timer of a live
+   participant: timers are delivered at their instant (no AdvanceInCall) *)
 Definition well_formed (acts : list action) := Forall wf_action acts.
 (* AcquireLeadership(p, k) is only called while p has never led k (failed attempts may be repeated) *)
 Definition acquires_once (c : cfg) (np : nat) (acts : list action) := fresh_run c (init np) acts.
@@ -71,6 +72,26 @@ Theorem step_down_bound_and_mutex_refuted_slow_call :
 Proof.
   eexists. eexists. eexists. split; [vm_compute; reflexivity|].
   split; [reflexivity|]. split; [reflexivity|]. (* instantiate l, l' before computing with them *)
+  vm_compute. repeat split; try reflexivity; discriminate.
+Qed.
+
+(* The same hypothesis excludes late timer delivery (a stalled process, a clock that jumps): tick
+   and retry deadline are armed relative to the instant the tick is RECEIVED, not relative to the
+   last successful renewal, so one 16 s jump with D = 20 puts the give-up at 21 s: the context is
+   live after the record expired at 20 s and a second participant acquires (same finding U3). *)
+Definition late_timer_run : list action :=
+  [AcqCall 0 1 10 20; InsEff 0 ONormal; InsRet 0; AdvanceInCall 16000000000; Tick 0; CasEff 0 OErrBefore; CasRet 0;
+   Advance 1000000000; Retry 0; CasEff 0 OErrBefore; CasRet 0; Advance 1000000000; Retry 0; CasEff 0 OErrBefore; CasRet 0;
+   Advance 1000000000; Retry 0; CasEff 0 OErrBefore; CasRet 0; Advance 1000000000; Retry 0; CasEff 0 OErrBefore; CasRet 0;
+   Advance 500000000; AcqCall 1 1 11 20; InsEff 1 ONormal; InsRet 1].
+Theorem step_down_bound_and_mutex_refuted_late_timers :
+  exists s l l', run go_cfg (init 2) late_timer_run = Some s /\
+    nth_error (lis s) 0 = Some l /\ nth_error (lis s) 1 = Some l' /\
+    llive l = true /\ llast l + ldur l * sec < now s /\ lph l = MRetry 21000000000 21000000000 /\
+    lkey l = lkey l' /\ lown l <> lown l' /\ llive l' = true.
+Proof.
+  eexists. eexists. eexists. split; [vm_compute; reflexivity|].
+  split; [reflexivity|]. split; [reflexivity|].
   vm_compute. repeat split; try reflexivity; discriminate.
 Qed.
 
@@ -275,6 +296,7 @@ Proof. eexists. eexists. split; [vm_compute; reflexivity|]. vm_compute. auto 8. 
 
 Print Assumptions step_down_bound.
 Print Assumptions step_down_bound_and_mutex_refuted_slow_call.
+Print Assumptions step_down_bound_and_mutex_refuted_late_timers.
 Print Assumptions step_down_bound_refuted_no_defer.
 Print Assumptions step_down_bound_no_defer_partial.
 Print Assumptions mutex.
